@@ -25,7 +25,10 @@ struct pump {
   }
   pump(const pump&) = delete;
   ~pump() {
-    stop = true;  // the controller no longer runs: hand the token to the worker directly
+    {
+      std::lock_guard<std::mutex> g(qm);
+      stop = true;  // the controller no longer runs: hand the token to the worker directly
+    }
     {
       std::unique_lock<std::mutex> l(vs::S().m);
       vs::S().current = id;
@@ -33,12 +36,17 @@ struct pump {
     }
     worker.join();
   }
+  std::mutex qm;  // only contended after the scheduler fell back to free running
   void run() {
     for (;;) {
-      vs::S().block(id, [this] { return stop || !q.empty(); });
-      if (stop) return;
-      auto f = std::move(q.front());
-      q.pop_front();
+      vs::S().block(id, [this] { std::lock_guard<std::mutex> g(qm); return stop || !q.empty(); });
+      std::function<void()> f;
+      {
+        std::lock_guard<std::mutex> g(qm);
+        if (stop) return;
+        f = std::move(q.front());
+        q.pop_front();
+      }
       current = this;
       f();
       current = nullptr;
@@ -46,8 +54,11 @@ struct pump {
     }
   }
   void operator()(const std::function<void()>& f) {
-    q.push_back(f);
-    ++posted;
+    {
+      std::lock_guard<std::mutex> g(qm);
+      q.push_back(f);
+      ++posted;
+    }
     if (vs::self >= 0) vs::S().yield(vs::self);  // posting is a scheduling point
   }
   void pause() {}
